@@ -10,16 +10,37 @@ import (
 )
 
 var Registry = map[string]func(*ev.Run){
-	"C03": func(r *ev.Run) { RunPairs(r, pairTier(r)) },
+	"C03": func(r *ev.Run) {
+		RunPairs(r, pairTier(r))
+		// second half of the space: struct pairs under field-level deviation operators and field settings
+		c := RunWorkers(r, "c05", []string{pairTier(r), "C03", "gen-only"}, "")
+		r.Cov["struct_field_scenarios"] = c["evaluations"]
+		r.Cov["evaluations"] = r.Cov["evaluations"].(int) + c["evaluations"]
+		r.Cov["states"] = r.Cov["states"].(int) + c["evaluations"]
+		r.Cov["transitions"] = r.Cov["transitions"].(int) + c["transitions"]
+		r.Cov["rule"] = "(1) every ordered pair (S,T) of the depth-bounded type alphabets is one converter interface, generated in isolation by the real pipeline under every setting vector with <=k deviations; (2) struct pairs under every field-level deviation operator (renamed, re-cased, twins, nested, behind pointers, dropped, methods, unexported) x target variants x placements x <=2 field-setting lines; real outcome vs three-valued model verdict; states = judged (pair|scenario, settings) combinations, transitions = model rule applications; non-trivial = model plan is not a bare basic copy"
+	},
 	"C01": RunRtPairs,
 	"C02": RunRtPairs,
 	"C04": RunRtPairs,
 	"C18": RunRtPairs,
+	"C05": func(r *ev.Run) {
+		RunScenarioFamily(r, "c05", len(C05Scenarios(pairTier(r))), "struct pair In{A,B,Name}->Out{A,B,Name} under every source-struct variant x target variant x placement x every subset of <=k field-setting lines; generation outcome vs model verdict, accepted cases executed on all values within the deviation bound against the model plan")
+	},
 	"C13": func(r *ev.Run) { RunPairs(r, pairTier(r)) },
 }
 
 var Workers = map[string]func(w *pool.W, shard, n int, args []string) error{
 	"rtpairs": func(w *pool.W, shard, n int, args []string) error { return RtPairWorker(w, shard, n, args[0]) },
+	"c05": func(w *pool.W, shard, n int, args []string) error {
+		scs := shardOf(C05Scenarios(args[0]), shard, n)
+		if len(args) > 1 && args[1] != "" {
+			for _, sc := range scs {
+				sc.PropGen = args[1]
+			}
+		}
+		return ScenarioWorker(w, scs, args[0], len(args) < 3 || args[2] != "gen-only")
+	},
 	"pairs": func(w *pool.W, shard, n int, args []string) error { return PairWorker(w, shard, n, args[0]) },
 }
 
